@@ -322,6 +322,8 @@ def write_replay_fill(inputs, path):
     with open(path, 'w') as f:
         f.write('/* generated from a solver counterexample */\nstatic void vf_replay_fill(void) {\n')
         for p in sorted(inputs or {}):
+            if '$' in p:
+                continue
             b = inputs[p]['bin']
             f.write('    %s = (__typeof__(%s))0x%xULL; /* %s */\n' % (p, p, int(b, 2) if b else 0, inputs[p].get('data')))
         f.write('}\n')
@@ -442,6 +444,8 @@ def run_property(prop, tier, cases, jobs=None, meta=None, only=None, keep=False)
     shutil.rmtree(work, ignore_errors=True)
     os.makedirs(work)
     known = load_known()
+    if not only:
+        shutil.rmtree(os.path.join(VERIF, 'replays', prop), ignore_errors=True)
     results = []
     # heavier cases first for better packing
     order = sorted(cases, key=lambda c: -c.timeout)
@@ -556,6 +560,7 @@ def run_property(prop, tier, cases, jobs=None, meta=None, only=None, keep=False)
                 'solver_time_s': round(sum(r.get('solver_wall_s', 0) for r in results), 1),
                 'max_rss_kb': max([r.get('max_rss_kb', 0) for r in results] or [0]),
                 'samples': samples,
+                'slowest_cases': [{'case': r['case'], 'wall_s': round(r.get('wall_s', 0), 1), 'status': r['status']} for r in sorted(results, key=lambda x: -x.get('wall_s', 0))[:8]],
                 'explanation': meta.get('explanation', ''),
                 'exhaustive': False,
                 'repo_head': git_head(REPO),
